@@ -76,7 +76,23 @@ fn player_runs(out: &mut Out, r: &mut Rng, count: u64) {
         let mut pl: Player<RecAy> = Player::new(mk_vtx(&frames, pf), rate, stereo);
         out.ev(json!({"ev":"track","frames":frames,"rate":rate,"pf":pf,"stereo":stereo}));
         let mut calls = 0;
+        let mut seeks = 0;
         loop {
+            // now and then the caller seeks between two play() calls, wherever the player stands (inside a frame as well):
+            // playback goes on from the first sample of the frame asked for
+            if seeks < 3 && r.chance(1, 8) {
+                seeks += 1;
+                if r.chance(1, 2) {
+                    pl.rewind();
+                    let log = LOG.with(|l| std::mem::take(&mut *l.borrow_mut()));
+                    out.ev(json!({"ev":"seek","frame":0,"ret":true,"log":log}));
+                } else {
+                    let k = r.below(nframes as u64 + 2) as usize;
+                    let ret = pl.set_frame(k);
+                    let log = LOG.with(|l| std::mem::take(&mut *l.borrow_mut()));
+                    out.ev(json!({"ev":"seek","frame":k,"ret":ret,"log":log}));
+                }
+            }
             let len = match r.below(6) {
                 0 => 0,
                 1 => 1,
@@ -92,6 +108,14 @@ fn player_runs(out: &mut Out, r: &mut Rng, count: u64) {
             calls += 1;
             let slots = if stereo { len / 2 } else { len };
             if (ret < slots * if stereo { 2 } else { 1 }) || calls > 400 {
+                // the ordinary way to loop a tune: rewind once the end was reported
+                if seeks < 4 && calls <= 400 && r.chance(1, 2) {
+                    seeks = 4;
+                    pl.rewind();
+                    let log = LOG.with(|l| std::mem::take(&mut *l.borrow_mut()));
+                    out.ev(json!({"ev":"seek","frame":0,"ret":true,"log":log}));
+                    continue;
+                }
                 break;
             }
         }
